@@ -175,6 +175,19 @@ func genGoFn(c *common.Ctx, emit func(...string)) {
 					mask = append(mask, tc)
 				}
 			}
+			// the slice types of this signature too: a slice-typed last
+			// parameter of a NON-variadic function takes one argument, and
+			// $nil scans to it (thorough-tier disagreement of round 3: the
+			// mask said "no" for every slice type)
+			seenSlice := map[string]bool{}
+			for _, tc := range sig {
+				if strings.HasPrefix(tc, "[") && !seenSlice[tc] {
+					seenSlice[tc] = true
+					if _, ok := scanTo(v, tyOf(tc)); ok {
+						mask = append(mask, tc)
+					}
+				}
+			}
 			m := "-"
 			if len(mask) > 0 {
 				m = strings.Join(mask, ".")
